@@ -93,24 +93,48 @@ type st struct {
 	clock int64
 	steps []string
 
-	lsets  []labels.Labels // id → label set
-	isHist []bool
-	byKey  map[string]int            // labels.String() → id
-	cached map[int]storage.SeriesRef // id → last ref returned for it (possibly outdated)
-	cachedEpoch map[int]int          // epoch (restarts + gc steps) in which it was obtained
-	epoch  int
-	handed map[storage.SeriesRef]int // this process lifetime: ref → id
+	lsets       []labels.Labels // id → label set
+	isHist      []bool
+	byKey       map[string]int            // labels.String() → id
+	cached      map[int]storage.SeriesRef // id → last ref returned for it (possibly outdated)
+	cachedEpoch map[int]int               // epoch (restarts + gc steps) in which it was obtained
+	epoch       int
+	handed      map[storage.SeriesRef]int // this process lifetime: ref → id
+	// all lifetimes: ref → ids it was ever returned for; reissued: refs that came back for another
+	// label set after a restart (reported once, consequences are then classified separately)
+	ever      map[storage.SeriesRef][]int
+	reissued  map[storage.SeriesRef]bool
+	reported  map[string]bool
+	knownHits map[string]int
 
 	// stats
 	appends, outdatedRefAppends, retiredThenAppended, restarts, uncleanRestarts, retireSteps int
-	diskChecks, diskRefsChecked, queryChecks, samplesDecoded, checkpointsSeen                 int
-	retired                                                                               map[int]bool
+	diskChecks, diskRefsChecked, queryChecks, samplesDecoded, checkpointsSeen                int
+	retired                                                                                  map[int]bool
 }
 
 func (s *st) note(format string, args ...any) {
 	x := fmt.Sprintf(format, args...)
 	s.steps = append(s.steps, x)
 	s.c.Logf("step: %s", x)
+}
+
+// known reports a violation kind once per case and counts further hits.
+func (s *st) known(kind, format string, args ...any) {
+	s.knownHits[kind]++
+	if !s.reported[kind] {
+		s.reported[kind] = true
+		s.c.Violatef(kind, format, args...)
+	}
+}
+
+func (s *st) everHad(ref storage.SeriesRef, id int) bool {
+	for _, x := range s.ever[ref] {
+		if x == id {
+			return true
+		}
+	}
+	return false
 }
 
 func (s *st) history() string {
@@ -238,18 +262,31 @@ func (s *st) appendTx(ids []int, stale bool, ooo bool) bool {
 		s.c.Violatef("operation-failed:Commit", "config {%s}: Commit: %v\nhistory: %s", s.cfg, err, s.history())
 		return false
 	}
-	// oracle (2): the returned ref belongs to the labels passed
+	// oracle (2): the returned ref belongs to the labels passed; refs are not reissued
 	live := s.db.Head().VerifSeriesRefs()
 	for _, o := range outs {
-		if ls, ok := live[uint64(o.ref)]; ok {
-			if ls.String() != s.lsets[o.id].String() {
-				s.c.Violatef("append-returned-ref-of-another-series", "config {%s}: Append(ref=%d, labels of id %d) returned ref %d which the head maps to %s\nhistory: %s", s.cfg, o.usedRef, o.id, o.ref, trunc(ls.String()), s.history())
-				return false
-			}
-		}
 		if prev, ok := s.handed[o.ref]; ok && prev != o.id {
 			s.c.Violatef("ref-handed-out-for-two-label-sets-in-one-lifetime", "config {%s}: ref %d was returned for label set id %d and, in the same process lifetime, for id %d\nhistory: %s", s.cfg, o.ref, prev, o.id, s.history())
 			return false
+		}
+		if ls, ok := live[uint64(o.ref)]; ok && ls.String() != s.lsets[o.id].String() {
+			other, _ := idOfLabels(ls)
+			if s.reissued[o.ref] || s.reissued[o.usedRef] {
+				// consequence of a reissued ref: the sample went to the series that now owns it
+				s.known("append-with-outdated-ref-lands-in-series-that-got-the-ref-reissued", "config {%s}: Append(ref=%d, labels of id %d) returned ref %d, which the head maps to the label set id=%d (that series was created after a restart under a ref that had belonged to id %d): the sample is stored under the wrong labels\nhistory: %s", s.cfg, o.usedRef, o.id, o.ref, other, o.id, s.history())
+				delete(s.cached, o.id)
+				continue
+			}
+			s.c.Violatef("append-returned-ref-of-another-series", "config {%s}: Append(ref=%d, labels of id %d) returned ref %d which the head maps to %s\nhistory: %s", s.cfg, o.usedRef, o.id, o.ref, trunc(ls.String()), s.history())
+			return false
+		}
+		if len(s.ever[o.ref]) > 0 && !s.everHad(o.ref, o.id) {
+			// handed out in an earlier process lifetime for another label set
+			s.reissued[o.ref] = true
+			s.known("ref-reissued-for-another-label-set-after-restart", "config {%s}: Append(ref=%d, labels of id %d) returned ref %d, which an earlier process lifetime had returned for label set id(s) %v; the harness still holds that ref for them (an outdated reference in the sense of the statement)\nhistory: %s", s.cfg, o.usedRef, o.id, o.ref, s.ever[o.ref], s.history())
+		}
+		if !s.everHad(o.ref, o.id) {
+			s.ever[o.ref] = append(s.ever[o.ref], o.id)
 		}
 		s.handed[o.ref] = o.id
 		s.cached[o.id] = o.ref
@@ -308,6 +345,14 @@ func (s *st) checkQuery(where string) bool {
 			}
 			s.samplesDecoded++
 			if got != want {
+				viaReissue := false
+				for ref := range s.reissued {
+					viaReissue = viaReissue || (s.everHad(ref, got) && s.everHad(ref, want))
+				}
+				if viaReissue {
+					s.known("sample-returned-under-labels-of-series-that-got-its-ref-reissued", "config {%s}: %s: the series with label id=%d returned sample t=%d value=%v, which was appended with the label set id=%d; both label sets have owned the same series ref (reissued after a restart)\nhistory: %s", s.cfg, where, want, x.T, v, got, s.history())
+					continue
+				}
 				s.c.Violatef("sample-returned-under-wrong-labels", "config {%s}: %s: the series with label id=%d returned sample t=%d value=%v, which was appended with the label set id=%d\nhistory: %s", s.cfg, where, want, x.T, v, got, s.history())
 				return false
 			}
@@ -379,6 +424,10 @@ func (s *st) checkDisk(dir, where string) bool {
 				a, b := ids[0].src, x.src
 				if b < a {
 					a, b = b, a
+				}
+				if s.reissued[storage.SeriesRef(ref)] && s.everHad(storage.SeriesRef(ref), ids[0].id) && s.everHad(storage.SeriesRef(ref), x.id) {
+					s.known("reissued-ref-has-two-identities-on-disk", "config {%s}: %s: series ref %d (reissued after a restart) stands for label set id=%d in a %s and for id=%d in a %s\nhistory: %s", s.cfg, where, ref, ids[0].id, ids[0].src, x.id, x.src, s.history())
+					break
 				}
 				s.c.Violatef("ref-has-two-identities-on-disk:"+a+"+"+b, "config {%s}: %s: series ref %d stands for label set id=%d in a %s and for id=%d in a %s (all records found: %v)\nhistory: %s", s.cfg, where, ref, ids[0].id, ids[0].src, x.id, x.src, ids, s.history())
 				return false
@@ -489,7 +538,8 @@ func run(c *core.Case) {
 	if r.IntN(2) == 0 {
 		cf.OOO = cf.R / 2
 	}
-	s := &st{c: c, r: r, cfg: cf, dir: c.TempDir(), byKey: map[string]int{}, cached: map[int]storage.SeriesRef{}, cachedEpoch: map[int]int{}, retired: map[int]bool{}}
+	s := &st{c: c, r: r, cfg: cf, dir: c.TempDir(), byKey: map[string]int{}, cached: map[int]storage.SeriesRef{}, cachedEpoch: map[int]int{}, retired: map[int]bool{},
+		ever: map[storage.SeriesRef][]int{}, reissued: map[storage.SeriesRef]bool{}, reported: map[string]bool{}, knownHits: map[string]int{}}
 	s.clock = gen.Pick(r, []int64{0, 1_000_000, -3 * cf.R})
 	core.Must(s.open(), "open fresh db")
 	defer func() {
@@ -619,6 +669,10 @@ func run(c *core.Case) {
 	c.Count("disk_checks_with_checkpoint_records", int64(s.checkpointsSeen))
 	c.Count("query_checks", int64(s.queryChecks))
 	c.Count("samples_decoded", int64(s.samplesDecoded))
+	c.Count("refs_reissued_after_restart", int64(len(s.reissued)))
+	for k, n := range s.knownHits {
+		c.Count("known:"+k, int64(n))
+	}
 	for _, x := range s.steps {
 		c.Seen("op_kind", strings.SplitN(strings.SplitN(strings.SplitN(x, "@", 2)[0], "[", 2)[0], "→", 2)[0])
 	}
